@@ -23,6 +23,10 @@ def run_one(name, props=None, verbose=True):
     expects = meta.get("expect", {})
     if props:
         expects = {p: e for p, e in expects.items() if p in props}
+    observe_only = False
+    if not expects and meta.get("missed") and (not props or meta.get("property") in props):
+        expects = {meta["property"]: "observe"}
+        observe_only = True
     if not expects:
         return True, "no expectations for the selected properties"
     tmp = tempfile.mkdtemp(prefix="ccverif-selftest-")
@@ -47,7 +51,11 @@ def run_one(name, props=None, verbose=True):
                                stdout=subprocess.PIPE, stderr=subprocess.STDOUT, text=True)
             out = p.stdout
             fired = p.returncode == 1 and "VIOLATION property=%s" % pid in out
-            if exp == "silent":
+            if exp == "observe":
+                ok = True
+                msgs.append("%s recorded as MISSED (outside the decided clauses): the check is %s on it" % (
+                    pid, "silent" if p.returncode == 0 else "NOW FIRING - update meta.json"))
+            elif exp == "silent":
                 ok = p.returncode == 0
                 msgs.append("%s silent: %s" % (pid, "ok" if ok else "UNEXPECTED ALARM\n" + out[-1500:]))
             else:
